@@ -738,7 +738,7 @@ func (g *c11Gen) generate(thorough bool) {
 	// --- random typed values ---
 	nrand := 150
 	if thorough {
-		nrand = 4000
+		nrand = 15000
 	}
 	for _, k := range c11Kinds {
 		g.emit("case random %s", k)
@@ -750,6 +750,17 @@ func (g *c11Gen) generate(thorough bool) {
 	// --- cross-kind decoding: a node of one kind offered to the decoders of the six other kinds ---
 	g.emit("case cross-kind")
 	for _, n := range g.nodes {
+		for _, k := range c11Kinds {
+			if k != n[0] {
+				g.emit("as %s %s", k, n[1])
+			}
+		}
+	}
+	// --- mainnet nodes (the embedded fixtures of the package's own tests), each also offered to the other six decoders ---
+	g.emit("case corpus-mainnet-nodes")
+	for _, n := range c11Corpus {
+		g.emit("node %s %s", n[0], n[1])
+		g.s.Count("corpus-nodes")
 		for _, k := range c11Kinds {
 			if k != n[0] {
 				g.emit("as %s %s", k, n[1])
